@@ -578,6 +578,7 @@ class Machine:
         self.const_cache = {}
         self.term_cache = {}   # (predicate, variable name) -> z3 term, shared by all paths
         self.cvc5_fallback = True
+        self.cur_tyenv = {}
         self.cvc5_timeout_ms = 60000
 
     # ------------------------------------------------------------ literals
@@ -651,9 +652,11 @@ class Machine:
             raise Unsupported('no MIR body for ' + name)
         return fn
 
-    def call_fn(self, fn, args):
+    def call_fn(self, fn, args, tyenv=None):
         ctx = self.ctx
         fn.parse()
+        saved_env = self.cur_tyenv
+        self.cur_tyenv = tyenv or {}
         self.encoded[fn.name] = self.encoded.get(fn.name, 0) + 1
         if fn.kind == 'fn' and len(args) != fn.nargs:
             raise Unsupported('arity mismatch calling %s: %d vs %d' % (fn.name, len(args), fn.nargs))
@@ -717,6 +720,7 @@ class Machine:
             raise
         finally:
             self.depth -= 1
+            self.cur_tyenv = saved_env
 
     def call_value(self, f, args):
         """Call a closure / fn item / harness function with already-spread args."""
@@ -738,6 +742,10 @@ class Machine:
         raise Unsupported('call of non-callable %r' % (f,))
 
     def call_path(self, path, args, term=None):
+        if self.cur_tyenv:
+            for gname, gty in self.cur_tyenv.items():
+                if gname in path:
+                    path = re.sub(r'(?<![A-Za-z_0-9:])%s(?![A-Za-z_0-9])' % re.escape(gname), gty.replace('\\', '\\\\'), path)
         ent = self.callkey_cache.get(path)
         if ent is None:
             ck = parse_callee(path)
@@ -751,7 +759,7 @@ class Machine:
             return stub(ctx, args, ck)
         if ck.kind == 'path':
             if fn is not None:
-                return self.call_fn(fn, args)
+                return self.call_fn(fn, args, self.env_for(fn, ck))
             mdl = MODELS.get(key)
             if mdl is None and len(ck.segs) >= 3:
                 mdl = MODELS.get('::'.join(ck.segs[-3:]))
@@ -772,8 +780,10 @@ class Machine:
             if args and th is None and name in ('from', 'try_from', 'default', 'from_iter', 'from_str'):
                 th = None
             cands = [g for (sh, sf, g) in impls if sh == th]
-            if not args or name in ('from', 'default', 'from_str', 'try_from'):
+            if not args or name in ('from', 'default', 'from_str', 'try_from', 'from_bytes'):
                 cands = [g for (sh, sf, g) in impls if sh == ck.selfty]
+            if len(cands) > 1:
+                cands = self.pick_impl(cands, ck, selfv)
             if len(cands) >= 1:
                 # blanket impls on references (`impl PartialEq<&B> for &A`, `impl Display for &T` ...): strip the
                 # extra reference levels before entering the impl for the referent type
@@ -785,7 +795,7 @@ class Machine:
                         for _ in range(k):
                             if isinstance(args[i], Ref) and isinstance(args[i].get(), Ref):
                                 args[i] = args[i].get()
-                return self.call_fn(cands[0], args)
+                return self.call_fn(cands[0], args, self.env_for(cands[0], ck))
         mdl = MODELS.get(key)
         if mdl is None:
             # provided trait method of a crate trait (default body)
@@ -798,6 +808,60 @@ class Machine:
             raise Unsupported('no model for ' + key + '   [' + path[:160] + ']')
         ctx.stats.models[key] = ctx.stats.models.get(key, 0) + 1
         return mdl(ctx, args, ck)
+
+    def env_for(self, fn, ck):
+        """Generic-parameter bindings of an impl method for this call (lightweight monomorphisation)."""
+        gens = getattr(fn, 'impl_generics', None)
+        if not gens or not getattr(fn, 'impl_self_full', None):
+            return dict(self.cur_tyenv) if self.cur_tyenv else None
+        if ck.kind == 'trait':
+            st = ck.selfty_full or ''
+        else:
+            st = ''
+            head = fn.impl_self
+            mm = re.search(r'\b%s::<' % re.escape(head), ck.raw)
+            if mm:
+                i = mm.end() - 1
+                j = self.find_matching(ck.raw, i)
+                st = head + ck.raw[i:j + 1]
+        env = {}
+        if st:
+            try:
+                env = self.res.bind_generics(fn.impl_self_full, st, gens)
+            except Exception:
+                env = {}
+        # do not bind a generic to another (still generic) name
+        env = {k: v for k, v in env.items() if v not in gens and not re.fullmatch(r'[A-Z][A-Za-z]{0,8}', v) or v in ('String',)}
+        return env or None
+
+    @staticmethod
+    def find_matching(s, i):
+        from mirparse import find_matching
+        return find_matching(s, i)
+
+    def pick_impl(self, cands, ck, selfv):
+        """Several impls of one trait for the same (alias-expanded) type constructor: select by the static self
+        type of the call when it is concrete, otherwise by the run-time types of the value's fields."""
+        res = self.res
+        st = res.expand_type(re.sub(r"^&\s*('[a-z_0-9]+\s+)?(mut\s+)?", '', (ck.selfty_full or '').strip()))
+        sargs = res.type_args(st)
+        good = []
+        if sargs and type_head(st) not in ('T', 'Self', 'I') and not st.startswith('dyn '):
+            good = [g for g in cands if res.unify_args(res.type_args(g.impl_self_full or ''), g.impl_generics, sargs)]
+        if not good and isinstance(selfv, Struct) and selfv.names and 'config' in selfv.names:
+            cfg = selfv.get('config')
+            cname = cfg.ty if isinstance(cfg, Struct) else None
+            for g in cands:
+                ia = res.type_args(g.impl_self_full or '')
+                if ia and ia[0] not in g.impl_generics and cname and type_head(ia[0]) == cname:
+                    good.append(g)
+            if not good:
+                good = [g for g in cands if res.type_args(g.impl_self_full or '')[:1] and
+                        res.type_args(g.impl_self_full or '')[0] in g.impl_generics]
+        if not good:
+            raise Unsupported('ambiguous trait impl for %s::%s on %s' % (ck.trait, ck.name, ck.selfty_full))
+        good.sort(key=lambda g: sum(1 for a in res.type_args(g.impl_self_full or '') if a in g.impl_generics))
+        return good[:1]
 
     @staticmethod
     def ref_depth(ty):
@@ -814,6 +878,18 @@ class Machine:
     def runtime_type(self, v):
         if isinstance(v, (Struct, Enum)):
             return v.ty
+        if isinstance(v, StringObj):
+            return 'String'
+        if isinstance(v, VecObj):
+            return 'Vec'
+        if isinstance(v, Int):
+            return v.ty
+        if isinstance(v, FP):
+            return v.ty
+        if isinstance(v, StrRef):
+            return 'str'
+        if isinstance(v, (bool, z3.BoolRef)):
+            return 'bool'
         return None
 
     def peel(self, v):
@@ -1016,6 +1092,15 @@ class Machine:
         v = self.KNOWN_CONSTS.get(strip_generics(t).replace('std::', '').replace('core::', ''))
         if v is not None:
             return v
+        mm = re.search(r'(?:<impl )?\b(u8|u16|u32|u64|u128|usize|i8|i16|i32|i64|i128|isize)>?::(MAX|MIN|BITS)$', t)
+        if mm:
+            ty, what = mm.group(1), mm.group(2)
+            bits = INT_BITS[ty]
+            if what == 'BITS':
+                return Int(bits, 'u32')
+            if ty in SIGNED:
+                return Int((1 << (bits - 1)) - 1 if what == 'MAX' else -(1 << (bits - 1)), ty)
+            return Int((1 << bits) - 1 if what == 'MAX' else 0, ty)
         if t.startswith('ZeroSized: '):
             ty = t[len('ZeroSized: '):].strip()
             if ty.startswith('{closure@'):
@@ -1047,7 +1132,25 @@ class Machine:
             if fn is None:
                 raise Unsupported('promoted not found: ' + t)
             return self.call_fn(fn, [])
-        if t.startswith('{alloc') or t.startswith('{transmute'):
+        if t.startswith('{alloc'):
+            am = re.match(r'^\{(alloc\d+): ', t)
+            sname = self.prog.static_allocs.get(am.group(1)) if am else None
+            if sname:
+                key = ('static', sname)
+                cell = self.const_cache.get(key)
+                if cell is None:
+                    fn = self.prog.functions.get(sname)
+                    if fn is None:
+                        c = [f for n, f in self.prog.functions.items() if n.endswith('::' + sname) and f.kind in ('static', 'constval')]
+                        fn = c[0] if len(c) == 1 else None
+                    if fn is None:
+                        raise Unsupported('static not found: ' + sname)
+                    val = self.eval_const(fn.value) if fn.kind == 'constval' else self.call_fn(fn, [])
+                    cell = [val]
+                    self.const_cache[key] = cell
+                return Ref(cell, 0)
+            raise Unsupported('allocation constant ' + t[:60])
+        if t.startswith('{transmute'):
             raise Unsupported('allocation constant ' + t[:60])
         st = strip_generics(t)
         if st.endswith('PhantomData') or 'PhantomData' in st:
@@ -1058,6 +1161,8 @@ class Machine:
         ck = parse_callee(t)
         if ck.kind == 'path':
             fn = self.res.resolve_path(ck)
+            if fn is not None and fn.kind == 'constval':
+                return self.eval_const(fn.value)
             if fn is not None and fn.kind in ('const', 'static'):
                 return self.call_fn(fn, [])
             # unit struct / unit enum variant written as a const
